@@ -191,8 +191,29 @@ def iterator_driver(f, lp):
                     st["k"] == "assign" and proj(st["p"]) and Eval.overlaps(root_desc(f, st["p"]), d)
                     for b2 in lp.body for st in f.stmts(b2)):
                 continue
-            return f.local_ty(a["l"])
+            return _concrete_iter_ty(f, a["l"])
     return None
+
+
+def _concrete_iter_ty(f, l):
+    """type of the iterator local; when it is opaque (`impl Iterator`, an associated type of a type parameter - the body of a
+    generic helper that was inlined, kq/inline.py) the type of the value it was made from: back through into_iter() /
+    moves / `&mut` to the first local with a concrete type"""
+    ty = f.local_ty(l) or ""
+    seen = set()
+    while ("impl " in ty or " as core::iter::traits::" in ty or re.fullmatch(r"(&mut |&)*[A-Z][A-Za-z0-9]{0,2}", ty)) and l not in seen:
+        seen.add(l)
+        d = f.single_def(l)
+        nxt = None
+        if d and d[2] == "assign" and d[3]["k"] in ("use", "ref") and is_place(d[3].get("a") or d[3].get("p")):
+            nxt = d[3].get("a") or d[3].get("p")
+        elif d and d[2] == "call" and (callee_name(d[3]) or "").split("::")[-1] in ("into_iter", "by_ref") and d[3]["args"] and is_place(d[3]["args"][0]):
+            nxt = d[3]["args"][0]
+        if nxt is None or any(e != "*" for e in proj(nxt)):
+            break
+        l = nxt["l"]
+        ty = f.local_ty(l) or ""
+    return ty
 
 
 def finite_iter_type(ty):
@@ -429,6 +450,18 @@ class Eval:
                 env[lk] = ("lin", s, 0)
                 res = ("pop", old, s)
                 handled = True
+        if not handled and short == "get" and len(args) == 2 and recv is not None and is_place(recv) and (
+                cn.startswith("core::slice::") or cn.startswith("alloc::vec::") or "<[" in cn):
+            # slice.get(i): Some exactly when i < len - the `while let Some(x) = s.get(i)` form of `while i < s.len()`
+            lv = None
+            if _slice_ref(rty) and not proj(recv):
+                lv = self.read_key(env, cons, ("L", recv["l"]))
+            elif rdesc and COLL.search(rty):
+                lv = self.read_key(env, cons, ("LEN", rdesc))
+            iv = self.read_op(env, cons, args[1])
+            if lv is not None and lv[0] == "lin" and iv is not None and iv[0] == "lin":
+                res = ("get", iv, lv)
+                handled = True
         if not handled and norm_name(cn) in suffix_fns and args and is_place(args[0]) and not proj(args[0]) and _slice_ref(f.local_ty(args[0]["l"])):
             a0 = self.read_key(env, cons, ("L", args[0]["l"]))
             if a0[0] == "lin":
@@ -664,6 +697,11 @@ class Eval:
                             c2.add(snew, old[1], old[2] - 1)
                         elif is_none:
                             pass
+                    elif v is not None and v[0] == "discr" and v[1][0] == "get":
+                        _, iv, lv = v[1]
+                        is_some = (val == 1) or (val == "o" and all(x == 0 for x, _ in targets))
+                        if is_some or val == 0:
+                            ok = self.assume(c2, ("cmp", "Lt", iv, lv), is_some)
                     elif v is not None and v[0] == "lin" and val != "o":
                         c2.add(v[1], ZERO, val - v[2])
                         c2.add(ZERO, v[1], v[2] - val)
@@ -911,9 +949,18 @@ def _at_least_one(f, o, depth):
     """operand is a constant >= 1, or a local every definition of which is"""
     if is_const(o):
         return isinstance(o["c"].get("v"), int) and not isinstance(o["c"].get("v"), bool) and o["c"]["v"] >= 1
-    if not is_place(o) or proj(o) or depth > 4:
+    if not is_place(o) or depth > 4:
         return False
     ds = f.defs().get(o["l"], [])
+    if proj(o):
+        # field i of a tuple: `let (list, start) = match .. { .. => (l, 1), .. => (m, 2) }` - every definition of the tuple is
+        # an aggregate whose i-th operand is >= 1
+        pr = proj(o)
+        if len(pr) != 1 or not (isinstance(pr[0], dict) and pr[0].get("tup") and "i" in pr[0]):
+            return False
+        i = pr[0]["i"]
+        return bool(ds) and all(d[2] == "assign" and d[3]["k"] == "agg" and d[3].get("tup") and len(d[3]["ops"]) > i
+                                and _at_least_one(f, d[3]["ops"][i], depth + 1) for d in ds)
     return bool(ds) and all(d[2] == "assign" and d[3]["k"] == "use" and _at_least_one(f, d[3]["a"], depth + 1) for d in ds)
 
 
